@@ -386,6 +386,72 @@ pub fn share_oracle(o: &Outcome) -> Option<(String, serde_json::Value)> {
   must_receive(o).or_else(|| common_order(o)).or_else(|| after_unsub(o))
 }
 
+/// C09 (thread part): debounce / throttle_time / buffer_with_time with their
+/// timer tasks run by a worker thread while 1-2 producer threads emit: the
+/// output consists only of emitted items, each at most once, each producer's
+/// items in that producer's order; with buffer_with_time and a completing
+/// source nothing is lost
+pub fn rate_oracle(o: &Outcome, s: &Scen) -> Option<(String, serde_json::Value)> {
+  let out = notes(&o.evs, 1);
+  let mut leaves: Vec<i64> = vec![];
+  for n in &out {
+    if let N::Next(v) = n {
+      v.leaves(&mut leaves);
+    }
+  }
+  let emitted: Vec<i64> = o.evs.iter().filter_map(|e| if let K::Mark("next_call", v) = e.k { Some(v) } else { None }).collect();
+  for v in &leaves {
+    if !emitted.contains(v) {
+      return Some(("invented_item".into(), json!({"item": v, "saw": leaves})));
+    }
+  }
+  let mut d = leaves.clone();
+  d.sort();
+  d.dedup();
+  if d.len() != leaves.len() {
+    return Some(("duplicate_item".into(), json!({"saw": leaves})));
+  }
+  for t in 1..=s.threads.len() as i64 {
+    let mine: Vec<i64> = leaves.iter().cloned().filter(|v| v / 1000 == t).collect();
+    if mine.windows(2).any(|w| w[0] > w[1]) {
+      return Some(("reordered".into(), json!({"saw": leaves})));
+    }
+  }
+  // delivered before it was handed over?
+  for e in &o.evs {
+    if e.id == 1 {
+      if let K::N(N::Next(v)) = &e.k {
+        let mut l = vec![];
+        v.leaves(&mut l);
+        for x in l {
+          if let Some(c) = mark_seq(&o.evs, "next_call", x) {
+            if e.seq < c {
+              return Some(("delivered_before_emitted".into(), json!({"item": x})));
+            }
+          }
+        }
+      }
+    }
+  }
+  if s.name == "buffer_with_time+workers" {
+    let unsub = o.evs.iter().any(|e| matches!(e.k, K::Mark("unsub_call", _)));
+    let errored = s.threads.iter().flatten().any(|op| matches!(op, TOp::Error(_)));
+    let completed = out.last() == Some(&N::Complete);
+    // items handed over (call returned) before the first terminal call must all be there
+    let first_term = o.evs.iter().filter(|e| matches!(e.k, K::Mark("term_call", _))).map(|e| e.seq).min();
+    if completed && !unsub && !errored {
+      for e in &o.evs {
+        if let K::Mark("next_ret", v) = e.k {
+          if first_term.map_or(true, |t| e.seq < t) && !leaves.contains(&v) {
+            return Some(("item_lost".into(), json!({"why": format!("next({}) returned before complete() was called, the buffered stream completed, but no buffer contains it", v), "saw": leaves})));
+          }
+        }
+      }
+    }
+  }
+  None
+}
+
 /// C02: nothing *begins* on a probe after its unsubscribe() returned
 pub fn after_unsub(o: &Outcome) -> Option<(String, serde_json::Value)> {
   for e in &o.evs {
